@@ -384,8 +384,42 @@ class C02(TraceProp):
             'flushes and commits, with manual early creation of the transaction record; transaction table, the '
             'distinct ids in all version / association-version tables and the current transaction of the unit of '
             'work compared with the model after every step; C02.Holds evaluated on the real tables per database '
-            'transaction; non-trivial = >= 2 transactions with a versioned change or >= 2 flushes in one transaction')
-    needs_tags = ['multi_flush_tx', 'multi_tx', 'ev:manualtx', 'shape:comment', 'no_record_tx', 'ev:spcommit']
+            'transaction; 40% of the cases add a harness plugin that supplies an attribute of the transaction record via '
+            'Plugin.transaction_args: every record must carry a stamp handed out by the plugin, unshared and unchanged; '
+            'non-trivial = >= 2 transactions with a versioned change or >= 2 flushes in one transaction')
+    needs_tags = ['multi_flush_tx', 'multi_tx', 'ev:manualtx', 'shape:comment', 'no_record_tx', 'ev:spcommit', 'plugin:stamp']
+
+    def pick_plugins(self, rng):
+        # None = random_spec's own choice of continuum plugins; 'stamp' is the harness plugin that supplies an
+        # attribute of the transaction record through Plugin.transaction_args (what FlaskPlugin does)
+        return None
+
+    def make_case(self, rng, tier):
+        case = TraceProp.make_case(self, rng, tier)
+        if rng.random() < 0.4:
+            case['spec'] = dict(case['spec'], plugins=list(case['spec'].get('plugins') or []) + ['stamp'])
+        return case
+
+    def extra_judge(self, case, obs, out):
+        """clause "(carrying any plugin-supplied attributes)": every transaction record holds a stamp that the
+        plugin handed out, no two records share one, and a record keeps its stamp for life"""
+        seen = {}
+        for mk in obs['markers']:
+            ta = mk.get('tx_attrs')
+            if not ta:
+                continue
+            stamps = [s for _, s in ta['rows']]
+            for tid, s in ta['rows']:
+                if s is None or s not in ta['issued']:
+                    out.violations.append({'clause': 'C02.plugin_attribute_missing', 'detail': {'marker': mk['label'], 'tx': tid, 'value': s}})
+                    return
+                if 'commit' in mk['label'] and 'sp_' not in mk['label']:
+                    if seen.setdefault(tid, s) != s:
+                        out.violations.append({'clause': 'C02.plugin_attribute_changed', 'detail': {'marker': mk['label'], 'tx': tid, 'was': seen[tid], 'now': s}})
+                        return
+            if len(set(stamps)) != len(stamps):
+                out.violations.append({'clause': 'C02.plugin_attribute_shared', 'detail': {'marker': mk['label'], 'rows': ta['rows']}})
+                return
 
     def case_tags(self, case, obs, out):
         TraceProp.case_tags(self, case, obs, out)
@@ -537,7 +571,7 @@ class C17(TraceProp):
 
 class C10(TraceProp):
     id = 'C10'
-    theorems = ['Continuum.c10_holds', 'Continuum.c10_linkInv_init', 'Continuum.c10_linkInv_after_commit',
+    theorems = ['Continuum.c10_holds', 'Continuum.c10_linkInv_init', 'Continuum.c10_linkInv_after_commit', 'Continuum.history_c10', 'Continuum.linkInv_before',
                 'Continuum.c10_linkInv_after_rollback', 'Continuum.c10_no_error', 'Continuum.c04_links_stable_step',
                 'Continuum.c10_twice_counterexample']
     sections = ('assoc', 'versions', 'mgr')
